@@ -6,6 +6,7 @@ from typing import Dict, List, Optional, Set, Tuple
 
 from ..cfg import CFG, Node
 from ..core import AnalysisError, Cls, Fn, Repo, call_name, calls_in, const_value, dotted, get_kw, last_attr, short, walk_no_nested
+from ..pat import has
 from ..report import Check
 from ..terms import Atom, Poly, TermBuilder, expand_phi, mentions, single_atom, walk_atoms
 
@@ -73,10 +74,10 @@ def _handlers(ck: Check, repo: Repo) -> None:
     ck.ob("C16.1", gd, gd.node, pairs == {"Box": "Normal", "Discrete": "Categorical", "MultiDiscrete": "list", "MultiBinary": "Bernoulli"},
           "Box -> Normal, Discrete -> Categorical, MultiDiscrete -> list of Categorical, MultiBinary -> Bernoulli", detail=str(pairs), construct="space kind -> distribution kind")
     src = ast.unparse(gd.node)
-    ck.ob("C16.1", gd, gd.node, "raise NotImplementedError" in src, "an unsupported action space is rejected", construct="get_distribution else-branch")
-    ck.ob("C16.1", gd, gd.node, "torch.split(logits, list(self.action_space.nvec), dim=1)" in src, "multi-discrete logits are split by the space's nvec along the component axis",
+    ck.ob("C16.1", gd, gd.node, has(src, 'raise NotImplementedError'), "an unsupported action space is rejected", construct="get_distribution else-branch")
+    ck.ob("C16.1", gd, gd.node, has(src, 'torch.split($logits, list(self.action_space.nvec), dim=1)'), "multi-discrete logits are split by the space's nvec along the component axis",
           construct="multi-discrete split")
-    ck.ob("C16.1", gd, gd.node, "Normal(loc=logits, scale=action_std)" in src and "action_std = torch.exp(log_std)" in src and "self.log_std.expand_as(logits)" in src,
+    ck.ob("C16.1", gd, gd.node, has(src, 'Normal(loc=$logits, scale=$action_std)') and has(src, '$action_std = torch.exp($log_std)') and has(src, 'self.log_std.expand_as($logits)'),
           "the Normal has mean = logits and std = exp(log_std)", construct="normal parameters")
     rets = [n for n in walk_no_nested(gd.node) if isinstance(n, ast.Return)]
     ck.ob("C16.4", gd, rets[0] if rets else gd.node, bool(rets) and ast.unparse(rets[0].value) == "TorchDistribution(dist, self.squash_output)",
@@ -108,11 +109,11 @@ def _handlers(ck: Check, repo: Repo) -> None:
                 ck.ob("C16.3", f, rets[0] if rets else f.node, arg is not None and any(isinstance(x, ast.Name) and x.id == arg for x in ast.walk(f.node)),
                       f"{hname}.log_prob evaluates the density at the action it is given")
     si = repo.fn(DM, "sum_independent_tensor")
-    ck.ob("C16.2", si, si.node, "tensor.sum(dim=1) if len(tensor.shape) > 1 else tensor" in ast.unparse(si.node), "sum_independent_tensor sums over dim 1 of batched values",
+    ck.ob("C16.2", si, si.node, has(si.node, '$tensor.sum(dim=1) if len($tensor.shape) > 1 else $tensor'), "sum_independent_tensor sums over dim 1 of batched values",
           construct="sum_independent_tensor")
     mc = repo.fn(DM, "MultiCategoricalHandler.log_prob")
     src = ast.unparse(mc.node)
-    ck.ob("C16.2", mc, mc.node, "torch.unbind(action, dim=1)" in src and "zip(distribution, unbinded_actions)" in src, "component k of the action is evaluated under component distribution k",
+    ck.ob("C16.2", mc, mc.node, has(src, 'torch.unbind($action, dim=1)') and has(src, 'zip($distribution, $unbinded_actions)'), "component k of the action is evaluated under component distribution k",
           construct="multi-categorical pairing")
 
 
@@ -162,7 +163,7 @@ def _log_prob(ck: Check, repo: Repo) -> None:
         else:
             okp = s == "self.sampled_action"
     ck.ob("C16.4", sm, sm.node, okt and okp, "sample() returns tanh(x) when squashing and x otherwise", construct="sample() return values")
-    ck.ob("C16.4", sm, sm.node, "self.sampled_action = self._handler.sample(self.distribution)" in ast.unparse(sm.node), "x is drawn from the wrapped distribution", construct="sample source")
+    ck.ob("C16.4", sm, sm.node, has(sm.node, 'self.sampled_action = self._handler.sample(self.distribution)'), "x is drawn from the wrapped distribution", construct="sample source")
     en = repo.fn(DM, "TorchDistribution.entropy")
     s = ast.unparse(en.node)
     ck.ob("C16.4", en, en.node, "if self.squash_output:\n        return None" in s and "return self._handler.entropy(self.distribution)" in s,
@@ -191,9 +192,9 @@ def _forward(ck: Check, repo: Repo) -> None:
     # StochasticActor.forward: scaling only for squashed Box; log_prob passed through
     sa = repo.fn(AM, "StochasticActor.forward")
     src = ast.unparse(sa.node)
-    ck.ob("C16.5", sa, sa.node, "action, log_prob, entropy = self.head_net.forward(latent, action_mask)" in src and "return (action, log_prob, entropy)" in src,
+    ck.ob("C16.5", sa, sa.node, has(src, '$action, $log_prob, $entropy = self.head_net.forward($latent, $action_mask)') and has(src, 'return ($action, $log_prob, $entropy)'),
           "the actor returns the head's action, log-probability and entropy", construct="StochasticActor.forward passthrough")
-    ck.ob("C16.4", sa, sa.node, "if isinstance(self.action_space, spaces.Box) and self.squash_output:\n        action = self.scale_action(action)" in src,
+    ck.ob("C16.4", sa, sa.node, has(src, 'if isinstance(self.action_space, spaces.Box) and self.squash_output:\n    $action = self.scale_action($action)'),
           "only squashed continuous actions are rescaled to the action bounds", construct="StochasticActor.forward scaling")
     sc = repo.fn(AM, "StochasticActor.scale_action")
     tb = TermBuilder(repo, sc, depth=0)
@@ -204,10 +205,10 @@ def _forward(ck: Check, repo: Repo) -> None:
         want = lo + Poly.const("0.5") * (a + Poly.const(1)) * (hi - lo)
         ck.ob("C16.4", sc, rets[0].ast, got == want, "scale_action maps [-1, 1] affinely onto [low, high]", detail=got.key()[:160])
     al = repo.fn(AM, "StochasticActor.action_log_prob")
-    ck.ob("C16.3", al, al.node, "return self.head_net.log_prob(action)" in ast.unparse(al.node), "action_log_prob evaluates the head's current distribution at the given action",
+    ck.ob("C16.3", al, al.node, has(al.node, 'return self.head_net.log_prob($action)'), "action_log_prob evaluates the head's current distribution at the given action",
           construct="StochasticActor.action_log_prob")
     el = repo.fn(DM, "EvolvableDistribution.log_prob")
-    ck.ob("C16.3", el, el.node, "return self.dist.log_prob(action)" in ast.unparse(el.node) and "if self.dist is None:\n        raise ValueError" in ast.unparse(el.node),
+    ck.ob("C16.3", el, el.node, has(el.node, 'return self.dist.log_prob($action)') and has(el.node, 'if self.dist is None:\n    raise ValueError'),
           "EvolvableDistribution.log_prob delegates to the current distribution and refuses to run before a forward pass", construct="EvolvableDistribution.log_prob")
 
 
@@ -226,7 +227,7 @@ def _reeval(ck: Check, repo: Repo) -> None:
         ck.ob("C16.6", ev, lc, dotted(lc.args[0]) == "actions", "the log-probability is asked for the actions that were passed in")
     gv = repo.fn("agilerl.algorithms.ppo", "PPO._get_action_and_values")
     src = ast.unparse(gv.node)
-    ck.ob("C16.6", gv, gv.node, "self.actor.extract_features(obs)" in src and "self.actor.forward_head(latent_pi, action_mask=action_mask)" in src,
+    ck.ob("C16.6", gv, gv.node, has(src, 'self.actor.extract_features($obs)') and has(src, 'self.actor.forward_head($latent_pi, action_mask=$action_mask)'),
           "_get_action_and_values feeds the actor's head with the features of the given observations", construct="_get_action_and_values")
     ip = repo.fn("agilerl.algorithms.ippo", "IPPO._learn_individual")
     icfg = CFG(ip.node)
@@ -253,15 +254,15 @@ def _mask(ck: Check, repo: Repo) -> None:
     ck.ob("C16.7", am, rets[0] if rets else am.node, ok, "allowed logits are kept, masked logits are replaced by a constant <= -1e8", detail=detail)
     ap = repo.fn(DM, "EvolvableDistribution.apply_mask")
     src = ast.unparse(ap.node)
-    ck.ob("C16.7", ap, ap.node, "torch.as_tensor(mask, dtype=torch.bool, device=self.device).view(logits.shape)" in src, "the mask is converted to booleans with the logits' shape",
+    ck.ob("C16.7", ap, ap.node, has(src, 'torch.as_tensor($mask, dtype=torch.bool, device=self.device).view($logits.shape)'), "the mask is converted to booleans with the logits' shape",
           construct="mask conversion")
-    ck.ob("C16.7", ap, ap.node, "list(self.action_space.nvec) if isinstance(self.action_space, spaces.MultiDiscrete) else [self.action_space.n]" in src,
+    ck.ob("C16.7", ap, ap.node, has(src, 'list(self.action_space.nvec) if isinstance(self.action_space, spaces.MultiDiscrete) else [self.action_space.n]'),
           "multi-discrete masks are split by nvec, multi-binary by n", construct="mask split sizes")
-    ck.ob("C16.7", ap, ap.node, "torch.split(mask, splits, dim=1)" in src and "torch.split(logits, splits, dim=1)" in src and "zip(split_logits, split_masks)" in src
-          and "torch.cat(masked_logits, dim=1)" in src, "each component's logits are masked with that component's mask and re-assembled in order", construct="mask per component")
+    ck.ob("C16.7", ap, ap.node, has(src, 'torch.split($mask, $splits, dim=1)') and has(src, 'torch.split($logits, $splits, dim=1)') and has(src, 'zip($split_logits, $split_masks)')
+          and has(src, 'torch.cat($masked_logits, dim=1)'), "each component's logits are masked with that component's mask and re-assembled in order", construct="mask per component")
     cfg = CFG(ap.node)
     calls = [c for c in calls_in(ap.node) if call_name(c) == "apply_action_mask_discrete"]
-    ck.ob("C16.7", ap, ap.node, len(calls) == 2 and all(len(c.args) == 2 for c in calls) and "raise NotImplementedError" in src, "every supported discrete space kind is masked; others are rejected",
+    ck.ob("C16.7", ap, ap.node, len(calls) == 2 and all(len(c.args) == 2 for c in calls) and has(src, 'raise NotImplementedError'), "every supported discrete space kind is masked; others are rejected",
           construct="apply_mask dispatch")
 
 
